@@ -1,1 +1,130 @@
-From XV Require Import lib.Bytes C05.Model.
+(* C05/Examples.v — non-vacuity: concrete instances of the hypotheses of the
+   C05 theorems, and a few examples run through the model. *)
+From Coq Require Import ZArith.
+From XV Require Import lib.Bytes lib.Lts gen.SessOut C05.Model C05.Spec C05.Proofs.
+Open Scope Z_scope.
+
+Definition nm (s l : string) : name := mkname (str s) (str l).
+Definition at_ (s l v : string) : attr := mkattr (nm s l) (str v).
+
+Definition c2s : cfg := mkcfg so_ns_client [].
+Definition s2s : cfg := mkcfg so_ns_server (str "example.net").
+
+(* <message to="a@b" id="" xmlns="jabber:client"><body xmlns="jabber:client">hi</body><message/></message> *)
+Definition ex_msg : tree :=
+  Elem (nm "" "message") [at_ "" "to" "a@b"; at_ "" "id" ""; at_ "" "xmlns" "jabber:client"]
+    [Elem (nm "jabber:client" "body") [at_ "" "xmlns" "jabber:client"] [Text (str "hi")];
+     Elem (nm "" "message") [] []].
+
+Example ex_msg_wf : wf_tree ex_msg.
+Proof. cbn. repeat split; discriminate. Qed.
+
+Example ex_msg_is_stanza : is_stanza_name (nm "" "message") = true.
+Proof. reflexivity. Qed.
+
+(* the completion on a server-to-server stream: name space, from, id; the empty
+   id and the xmlns attributes of namespaced elements are gone; the nested
+   message is untouched *)
+Example ex_spec_s2s :
+  spec_top s2s (str "ID") ex_msg =
+  Elem (nm "jabber:server" "message") [at_ "" "to" "a@b"; at_ "" "from" "example.net"; at_ "" "id" "ID"]
+    [Elem (nm "jabber:client" "body") [] [Text (str "hi")]; Elem (nm "" "message") [] []].
+Proof. vm_compute. reflexivity. Qed.
+
+(* instances of [denotes] for every entry point *)
+Example ex_den_send : denotes (CSend (mkreader (tokens_of ex_msg ++ [TText (str "junk")]) true)) ex_msg 1.
+Proof. apply D_send. Qed.
+
+Example ex_den_sendx : denotes (CSendX KMessage (mkreader (tokens_of ex_msg ++ []) false) (str "N"))
+  (Elem (nm "" "message") (fill_id [at_ "" "to" "a@b"; at_ "" "id" ""; at_ "" "xmlns" "jabber:client"] (str "N"))
+        (kids_of ex_msg)) 1.
+Proof. apply D_sendx. reflexivity. Qed.
+
+Example ex_fill_id :
+  fill_id [at_ "" "to" "a@b"; at_ "" "id" ""; at_ "" "xmlns" "jabber:client"] (str "N") =
+  [at_ "" "to" "a@b"; at_ "" "id" "N"; at_ "" "xmlns" "jabber:client"].
+Proof. vm_compute. reflexivity. Qed.
+
+(* a marshaled value: RawToken view of
+   <message xmlns="jabber:client" xml:lang="en" xmlns:_="urn:a" _:k="v"><body _:n="w"></body></message> *)
+Definition ex_raw : list token :=
+  [TStart (nm "" "message") [at_ "" "xmlns" "jabber:client"; at_ "xml" "lang" "en"; at_ "xmlns" "_" "urn:a"; at_ "_" "k" "v"];
+   TStart (nm "" "body") [at_ "_" "n" "w"]; TEnd (nm "" "body"); TEnd (nm "" "message")].
+
+Definition ex_raw_tree : tree :=
+  Elem (nm "" "message")
+    [at_ "" "xmlns" "jabber:client"; mkattr (mkname so_ns_xml (str "lang")) (str "en"); at_ "urn:a" "k" "v"]
+    [Elem (nm "" "body") [at_ "urn:a" "n" "w"] []].
+
+Example ex_resolve_raw : resolve_raw 0 [] ex_raw = tokens_of ex_raw_tree.
+Proof. vm_compute. reflexivity. Qed.
+
+Example ex_den_struct : denotes (CEncode (VStruct ex_raw false)) ex_raw_tree 1.
+Proof. apply (D_encode_struct ex_raw (nm "" "message")). exact ex_resolve_raw. Qed.
+
+Example ex_den_encel : denotes (CEncodeElement (VStruct ex_raw false) (nm "" "presence") [at_ "" "to" "x"])
+  (Elem (nm "" "presence")
+        (merged_attrs [at_ "" "to" "x"] [at_ "" "xmlns" "jabber:client"; mkattr (mkname so_ns_xml (str "lang")) (str "en"); at_ "urn:a" "k" "v"])
+        [Elem (nm "" "body") [at_ "urn:a" "n" "w"] []]) 1.
+Proof. apply (D_encel_struct ex_raw (nm "" "message")). exact ex_resolve_raw. Qed.
+
+(* Encode of that value on a client stream: the wire holds one message with
+   xml:lang and the attribute in urn:a, a generated id, and it is flushed *)
+Example ex_encode_struct_wire :
+  wire (fst (run_call c2s (ost0 [str "ID"]) (CEncode (VStruct ex_raw false)))) =
+  map WTok
+    [TStart (nm "jabber:client" "message")
+       [mkattr (mkname so_ns_xml (str "lang")) (str "en"); at_ "urn:a" "k" "v"; at_ "" "id" "ID"];
+     TStart (nm "" "body") [at_ "urn:a" "n" "w"]; TEnd (nm "" "body"); TEnd (nm "jabber:client" "message")].
+Proof. vm_compute. reflexivity. Qed.
+
+(* two threads, one Send and one TokenWriter, under the schedule in which
+   thread 1 acquires first and thread 0 tries in between (its acquire step is
+   simply not enabled while the lock is held) *)
+Definition ex_small : tree := Elem (nm "" "iq") [at_ "" "type" "result"] [].
+Definition ex_calls : list call :=
+  [CSend (mkreader (tokens_of ex_small ++ []) false); CTokenWriter (map TwTok (tokens_of ex_small))].
+
+Example ex_blocked_while_held :
+  exists g, run (step c2s) (ginit [str "A"; str "B"] (map call_thread ex_calls)) [1%nat; 1%nat] = Some g /\
+            step c2s g 0%nat = None /\ g_lock g = Some 1%nat.
+Proof. eexists. split; [vm_compute; reflexivity|]. split; vm_compute; reflexivity. Qed.
+
+Definition ex_schedule : list nat := [1; 1; 1; 1; 1; 0; 0; 0; 0; 0; 0]%nat.
+
+Example ex_schedule_finishes :
+  match run (step c2s) (ginit [str "A"; str "B"] (map call_thread ex_calls)) ex_schedule with
+  | Some g => finished g = true /\ map fst (g_acq g) = [1; 0]%nat
+  | None => False
+  end.
+Proof. vm_compute. split; reflexivity. Qed.
+
+Example ex_calls_denote :
+  Forall2 (fun cl ek => denotes cl (fst ek) (snd ek) /\ wf_tree (fst ek)) ex_calls [(ex_small, 1%nat); (ex_small, 1%nat)].
+Proof.
+  constructor; [split|constructor; [split|constructor]].
+  - apply (D_send (nm "" "iq") [at_ "" "type" "result"] [] [] false).
+  - split; [discriminate|exact I].
+  - apply (D_tokenwriter (nm "" "iq") [at_ "" "type" "result"] []).
+  - split; [discriminate|exact I].
+Qed.
+
+(* send_test.go: Send of <message to="..."><body/></message> without id on a
+   client stream gets name space and id *)
+Example ex_send_test :
+  o_log (fst (run_call c2s (ost0 [str "123"])
+    (CSend (mkreader [TStart (nm "" "message") [at_ "" "to" "test@example.net"]; TEnd (nm "" "message")] false)))) =
+  [EvTok (TStart (nm "jabber:client" "message") [at_ "" "to" "test@example.net"; at_ "" "id" "123"]);
+   EvTok (TEnd (nm "jabber:client" "message")); EvFlush].
+Proof. vm_compute. reflexivity. Qed.
+
+(* a start element without a name is rejected and leaves the encoder at depth 0:
+   the next stanza is still completed *)
+Example ex_rejected_first_token :
+  let '(o, rs) := run_calls c2s (ost0 [str "I"])
+     [CSend (mkreader [TStart (nm "" "") []; TEnd (nm "" "")] false);
+      CSend (mkreader [TStart (nm "" "presence") []; TEnd (nm "" "presence")] false)] in
+  rs = [[RErr EEncoder]; [ROk]] /\
+  o_log o = [EvTok (TStart (nm "jabber:client" "presence") [at_ "" "id" "I"]);
+             EvTok (TEnd (nm "jabber:client" "presence")); EvFlush].
+Proof. vm_compute. split; reflexivity. Qed.
